@@ -20,6 +20,8 @@ def corpus():
         "pool.handles 2 3",
         "run prop=C04 mode=constant rate=20/50ms dur=400 conc=4 body=150 expectfull=1",
         "run prop=C04 mode=users conc=6 dur=300 body=20 expectfull=1",
+        "run prop=C04 mode=users conc=4 dur=300 body=20 expectfull=1 combine=1",           # handles reach the components of a combined scenario
+        "run prop=C04 mode=constant rate=12/50ms dur=300 conc=3 body=100 expectfull=1 combine=1",
     ]
 
 
@@ -42,6 +44,8 @@ def generate(rng, tier):
             out.append("run prop=C04 mode=ramp start=%d/100ms end=%d/100ms rampdur=2000 dist=none dur=400 conc=%d body=150 expectfull=1" % (5 * conc, 9 * conc, conc))
         else:
             out.append("run prop=C04 mode=gaussian freq=50 dist=none dur=400 conc=%d body=150" % conc)
+        if rng.random() < 0.4:
+            out[-1] += " combine=1"
     out.append("pool.handles %d %d" % (rng.choice([2, 3]), rng.choice([1, 2, 4])))
     return out
 
